@@ -221,6 +221,10 @@ class IdIndex(Index):
     def to_key(self, value) -> bytes:
         return self.prefix + bytes_from_hex(value)
 
+    def scanner(self, txn, matches, since=None, until=None, events=FakeContainer()):
+        # primary keys carry no timestamp: the time window is left to the residual matcher
+        return super().scanner(txn, matches, events=events)
+
     def write(self, event: Event, txn, operation="put"):
         if operation == "put":
             txn.put(self.to_key(event.id), encode_event(event))
